@@ -1217,6 +1217,7 @@ func (fr *frame) checkGuardedValue(v ssa.Value, st *bstate, write bool, pos toke
 
 func (fr *frame) noteGo(x *ssa.Go, st *bstate) {
 	f := fr.f
+	fr.beforeAsserts(&x.Call, st, x) // "before call F#n" also anchors on `go F(...)`
 	for _, a := range x.Call.Args {
 		f.publish(fr.val(a))
 	}
@@ -1235,7 +1236,34 @@ func (fr *frame) noteGo(x *ssa.Go, st *bstate) {
 	if callee == nil {
 		return
 	}
+	// sweep kind "goshare": a goroutine started here must not write a variable it shares with its
+	// creator (or with the other goroutines a loop starts): no synchronisation orders those writes
+	if f.sweep["goshare"] && !f.dry {
+		if mc, ok := x.Call.Value.(*ssa.MakeClosure); ok {
+			for i, b := range mc.Bindings {
+				if _, isCell := b.(*ssa.Alloc); !isCell || i >= len(callee.FreeVars) || callee.FreeVars[i].Referrers() == nil {
+					continue
+				}
+				for _, u := range *callee.FreeVars[i].Referrers() {
+					if stw, isStore := u.(*ssa.Store); isStore && stw.Addr == ssa.Value(callee.FreeVars[i]) {
+						f.oblige(st, fmt.Sprintf("%s#goroutine-writes-no-shared-variable:%s", fnShortName(fr.fn), callee.FreeVars[i].Name()), "safety", f.sweepTags, "false",
+							"the goroutine started here assigns to the captured variable "+callee.FreeVars[i].Name()+" without synchronisation", posStr(f.e.fset, x.Pos()))
+						break
+					}
+				}
+			}
+		}
+	}
 	spec := f.e.specFor(callee)
+	if spec != nil && !f.dry {
+		// a spawned call counts as a call for the ghost counters of its contract
+		for _, gname := range spec.Counted {
+			if g, ok := f.e.specs.ghosts[gname]; ok && len(g.Params) == 0 {
+				key := f.ghostKey(g.Name, sortInt, false, "")
+				st.heap = f.hs.write(st.heap, key, f.c.define("cnt."+gname, sortInt, app("+", f.hs.read(st.heap, key), "1")))
+			}
+		}
+	}
 	if spec == nil || len(spec.Requires) == 0 {
 		return
 	}
